@@ -557,6 +557,15 @@ def build_iface(case, log):
   return built
 
 
+def _sibling_iface():
+  k = _S.get('sibling_iface')
+  if k is None:
+    k = type('IfaceSibling', (object,), {'sibling_only': lambda self, a: None})
+    k.__module__ = 'c20.generated'
+    _S['sibling_iface'] = k
+  return k
+
+
 def _mro_indices(built):
   return [built.index(k) for k in built[-1].__mro__ if k in built]
 
@@ -580,6 +589,12 @@ def run_proxy(case):
       proxy_cls = builder._BuildServiceProxy(iface)
       obs['cache_same'] = True
     else:
+      # self-contained cases (replays run in a fresh process): another interface of the same module has already been
+      # turned into a client when this one is built
+      try:
+        builder.CreateServiceClient(_sibling_iface())
+      except Exception:
+        pass
       proxy_cls = builder.CreateServiceClient(iface)
       obs['cache_same'] = builder.CreateServiceClient(iface) is proxy_cls
   except Exception as e:
